@@ -183,6 +183,18 @@ theorem c13_digits_range_open (pf : Bytes → Option Int) (maxKey : Int)
 /-- 2^64 + 5 = 18446744073709551621 is a 20-digit token with an unbounded value (no wrap to 5) -/
 example : digitsNat [49,56,52,52,54,55,52,52,48,55,51,55,48,57,53,53,49,54,50,49] = some 18446744073709551621 := by decide
 
+/-- **C13 (range ends verbatim).**  The ends of a range are the quoted literal's bytes as written: for any non-empty
+`w` (a trailing space, a tab ...) a text range with lower end `v ++ w` does not contain the token `v`, and one with
+upper end `v` does not contain `v ++ w` - keyword tokens are whole field values, so outer whitespace in an end is
+significant (checked end to end from query text by the seqql.range channel). -/
+theorem c13_range_ends_verbatim (r : Range) (v w : Bytes) (hw : w ≠ []) :
+    (r.from_ = some (v ++ w) → r.checkText v = false) ∧ (r.to = some v → r.checkText (v ++ w) = false) :=
+  range_end_suffix_significant r v w hw
+
+/-- `["a ", "c"]` does not contain `a`; `[*, "a "]` contains `a ` -/
+example : rangeCheck (fun _ => none) 100 ⟨some [97, 32], some [99], true, true⟩ [97] = false ∧
+    rangeCheck (fun _ => none) 100 ⟨none, some [97, 32], true, true⟩ [97, 32] = true := by decide
+
 /-- `rangeCheck` is the check of the searcher `newSearcher` returns for a range, over the provider's whole TID range
 (ranges are never narrowed) -/
 theorem c13_range_searcher (pf : Bytes → Option Int) (maxKey : Int) (r : Range) (tp : Provider) :
@@ -502,5 +514,20 @@ theorem c13_x_tableLoader_copies :
     "e.MaxVal = string(unpacker.GetBinary())" ∈ SV.Extracted.C13.tableLoaderLoad ∧
     "block, _, err := l.reader.ReadIndexBlock(l.i, l.buf)" ∈ SV.Extracted.C13.tableLoaderReadBlock := by
   simp [SV.Extracted.C13.tableLoaderLoad, SV.Extracted.C13.tableLoaderReadBlock]
+
+/-- the range ends reach the pattern package as the literal's bytes: no statement between the lexer's value and
+the term alters it -/
+theorem c13_x_seqqlParseRangeTerm : SV.Extracted.C13.seqqlParseRangeTerm =
+    ["term.Kind = TermText", "value, err := parseCompositeToken(lex)", "if err != nil", "return err", "terms, err := parseSeqQLKeyword(value, sensitive)", "if err != nil", "return err", "case {1}", "*term = terms[0]", "case {0}", "*term = Term{ Kind: TermText, Data: \"\", }", "case {}", "return fmt.Errorf(\"only single wildcard is allowed\")", "return nil"] := rfl
+
+/-- the range ends reach the pattern package as the literal's bytes: no statement between the lexer's value and
+the term alters it -/
+theorem c13_x_seqqlParseTokenRange : SV.Extracted.C13.seqqlParseTokenRange =
+    ["r := &Range{Field: field}", "if !lex.IsKeywords(\"(\", \"[\")", "return r, fmt.Errorf(\"range start not found\")", "r.IncludeFrom = lex.Token == \"[\"", "lex.Next()", "if err := parseRangeTerm(&r.From, lex, sensitive); err != nil", "err := parseRangeTerm(&r.From, lex, sensitive)", "return r, err", "if !lex.IsKeywords(\",\", \"to\")", "return r, fmt.Errorf(\"expected ',' keyword, got %q\", lex.Token)", "lex.Next()", "if err := parseRangeTerm(&r.To, lex, sensitive); err != nil", "err := parseRangeTerm(&r.To, lex, sensitive)", "return r, err", "if !lex.IsKeywords(\")\", \"]\")", "return r, fmt.Errorf(\"range end not found\")", "r.IncludeTo = lex.Token == \"]\"", "lex.Next()", "return r, nil"] := rfl
+
+/-- the range ends reach the pattern package as the literal's bytes: no statement between the lexer's value and
+the term alters it -/
+theorem c13_x_legacyParseRangeTerm : SV.Extracted.C13.legacyParseRangeTerm =
+    ["builder := singleTermBuilder{}", "if !tp.eof() && tp.cur() == '\"'", "quoted = true", "err = tp.parseQuotedTerms(&builder)", "err = tp.parseTerms(&builder)", "if err != nil", "return err", "*term = builder.getTerm()", "if term.Data == \"\" && !quoted", "if tp.eof()", "return tp.errorEOF(\"range bounding term\")", "return tp.errorUnexpectedSymbol(`instead of range bounding term`)", "return nil"] := rfl
 
 end SV.Props.C13
